@@ -30,7 +30,10 @@ func TestC02(t *testing.T) {
 	run := evid.Start("C02", "exploration")
 	acc := enum.NewAcc(run, "full product (signer,verifier key) x (sign,verify context) x (sign,verify hash type) x (sign,verify data) x pub-key-embedded, plus deviation-1 menus on the signature object (hash-type values, every bit flip / truncation / extension of the signature bytes, every byte substitution / truncation / extension of the embedded marshalled key, key-type and key-length variants); a case is non-trivial unless it is an honest signature verified with its own four components; distinct by (group, description)")
 	keys := enum.Keys(3)
-	ctxs := []string{"", "ctx-a", "ctx-a ", "x - SIGN - 1"}
+	// contexts: empty, ordinary, a near miss, one containing the sign-body
+	// separator, and strings that would be read as printf verbs / escapes if a
+	// context were ever used as a format or pattern
+	ctxs := []string{"", "ctx-a", "ctx-a ", "x - SIGN - 1", "tok%v", "tok%d", "q%.0[2]s v1", "100%", "a\\0b", "ctx\x00z"}
 	hts := []hash.HashType{hash.HashType_HashType_SHA256, hash.HashType_HashType_SHA1, hash.HashType_HashType_BLAKE3}
 	datas := [][]byte{{}, {0x42}, bytes.Repeat([]byte("bifrost!"), 40)}
 	stdPub := func(i int) ed25519.PublicKey { return keys[i].Std.Public().(ed25519.PublicKey) }
